@@ -74,6 +74,10 @@ EXPLANATION += (
     ' Round 12: pointer values behind np.asarray / np.array are still pointer values (R-IDIOM/pointer-scatter).'
 )
 
+EXPLANATION += (
+    ' Round 15: the declared normalisation is never replaced inside the pipeline (R-FWD/setting-not-rebound).'
+)
+
 RULE_TEXT = (
     "one obligation per kernel function x configuration (declared type, "
     "row independence) and per index identity")
